@@ -342,6 +342,19 @@ def run(ctx):
             for v, tt, nxt, blk2 in conds:
                 vv, neg = v, False
                 truth = (nxt != tt["tgts"][tt["vals"].index("0")]) if "0" in tt["vals"] else None
+                if isinstance(vv, tuple) and vv[0] == "discr" and T.is_call(vv[1], r"impl std::convert::TryFrom<\w+> for \w+>::try_from$"):
+                    # `if let Ok(x) = T::try_from(n)`: on the Ok edge n lies in range(T)
+                    m2 = re.search(r"TryFrom<\w+> for (\w+)>::try_from$", vv[1][1])
+                    inner = build(vv[1][2][0], sty)
+                    tr_ = int_range(m2.group(1))
+                    taken = [int(x) for x, g in zip(tt["vals"], tt["tgts"]) if g == nxt]
+                    if inner is not None and tr_ is not None and inner.dep and taken == [0] and \
+                            all(int_range(ty)[0] <= R[0] and R[1] <= int_range(ty)[1] for ty in inner.types):
+                        lo, hi = max(lo, tr_[0]), min(hi, tr_[1])
+                    continue
+                while isinstance(vv, tuple) and vv[0] == "un" and vv[1] == "Not":
+                    vv = vv[2]
+                    truth = (not truth) if truth is not None else None
                 if isinstance(vv, tuple) and vv[0] == "bin" and vv[1] in ("Lt", "Le", "Gt", "Ge") and truth is not None:
                     a, c2 = build(vv[2], sty), build(vv[3], sty)
                     if a is None or c2 is None:
